@@ -3,7 +3,7 @@
    W : wire bundles what package wire / chainhash provide (serialisers, deserialisers, hashes,
    DeserializeTxLoc); the hypotheses wire_canonical / wire_roundtrip / wire_txloc say that wire's
    block (de)serialisers form a canonical prefix code and that DeserializeTxLoc measures it. *)
-From BU Require Import Lib.Bytes Block.Block Block.BlockProofs Block.BlockDistinct.
+From BU Require Import Lib.Bytes Block.Block Block.BlockProofs Block.BlockDistinct Block.BlockWire.
 
 (* For every constructor (NewBlock, NewBlockFromReader, NewBlockFromBytes, and NewBlockFromBlockAndBytes
    under its precondition: the bytes are empty or the message's serialisation) and every history of
@@ -95,6 +95,59 @@ Theorem C16_tx_wrapper_refines : forall (txc hdr H : Type) (W : wire txc hdr H),
                    trun txc hdr H W s ops = tref_run txc hdr H W hid (w_msg txc H (snd s)) (-1)%Z ops).
 Proof. exact tx_wrapper_refines. Qed.
 Print Assumptions C16_tx_wrapper_refines.
+
+(* ---- review round 2: the refinement without a global hypothesis about package wire ----
+   [wire_canonical] is false of bchd v0.20.0 on one input family (output script = 0xef, 32 zero bytes, a
+   well-formed CashToken body: read as token data, written back without it), so the theorems above say
+   nothing about NewBlockFromBytes on such bytes.  [constructed_pw] asks, for NewBlockFromBytes only, that
+   THIS input's consumed bytes are the serialisation of the parsed message; NewBlock, NewBlockFromReader and
+   NewBlockFromBlockAndBytes need nothing from wire. *)
+Theorem C16_wrapper_refines_message_pointwise : forall (txc hdr H : Type) (W : wire txc hdr H),
+  forall w m, constructed_pw txc hdr H W w m ->
+  forall ops, exists ids, run txc hdr H W w ops = ref_run txc hdr H W ids m (-1)%Z ops.
+Proof. exact wrapper_refines_message_pw. Qed.
+Print Assumptions C16_wrapper_refines_message_pointwise.
+
+(* ... and that condition is necessary: Bytes() of a block made by NewBlockFromBytes is the consumed input,
+   so it is a fresh serialisation of the message exactly when the input was canonical *)
+Theorem C16_from_bytes_fresh_iff : forall (txc hdr H : Type) (W : wire txc hdr H) next bytes w,
+  new_block_from_bytes txc hdr H W next bytes = Ok w ->
+  b_ser txc hdr H (w_blk txc hdr H w) <> [] ->
+  run txc hdr H W w [OpBytes] = [OBytesV H (b_ser txc hdr H (w_blk txc hdr H w))] /\
+  (run txc hdr H W w [OpBytes] = [OBytesV H (ser_block txc hdr H W (b_msg txc hdr H (w_blk txc hdr H w)))]
+   <-> b_ser txc hdr H (w_blk txc hdr H w) = ser_block txc hdr H W (b_msg txc hdr H (w_blk txc hdr H w))).
+Proof. exact from_bytes_fresh_iff. Qed.
+Print Assumptions C16_from_bytes_fresh_iff.
+
+(* the finding on the model side: with a wire that reads two encodings of one transaction content,
+   NewBlockFromBytes(bytes).Bytes() = bytes although the message serialises to something else *)
+Theorem C16_bytes_needs_canonical_wire_refuted :
+  exists (W : wire N N N) bytes w,
+    new_block_from_bytes N N N W 0 bytes = Ok w /\
+    run N N N W w [OpBytes] = [OBytesV N bytes] /\
+    ser_block N N N W (b_msg N N N (w_blk N N N w)) <> bytes /\
+    ~ wire_canonical N N N W.
+Proof. exact bytes_needs_canonical_wire. Qed.
+Print Assumptions C16_bytes_needs_canonical_wire_refuted.
+
+(* TxLoc() returns exactly the positions (offset of transaction i = header + count + transactions before it),
+   not merely slices with the right contents *)
+Theorem C16_txloc_positions : forall (txc hdr H : Type) (W : wire txc hdr H),
+  wire_txloc txc hdr H W ->
+  forall w m, constructed_pw txc hdr H W w m ->
+  forall ops, nth (length ops) (run txc hdr H W w (ops ++ [OpTxLoc])) (OUnit H) = OLocsV H (locs_of txc hdr H W m).
+Proof. exact txloc_positions. Qed.
+Print Assumptions C16_txloc_positions.
+
+(* the three hypotheses about wire hold TOGETHER for a wire with real deserialisers (one byte per header,
+   count and transaction), and the from-bytes constructor is exercised with trailing data *)
+Theorem C16_wire_hypotheses_satisfiable :
+  wire_canonical N N N toyW /\ wire_roundtrip N N N toyW /\ wire_txloc N N N toyW /\
+  exists w, new_block_from_bytes N N N toyW 0 [7; 2; 11; 12; 99] = Ok w /\
+    run N N N toyW w [OpBytes; OpTxLoc; OpTx 1; OpTxHash 0; OpTx 2] =
+      [OBytesV N [7; 2; 11; 12]; OLocsV N [(2, 1); (3, 1)]%nat; OTxV N (2, 1, 1%Z); OHashV N 4 111; OErr N E_RANGE].
+Proof. exact (conj toy_canonical (conj toy_roundtrip (conj toy_txloc_ok toy_from_bytes))). Qed.
+Print Assumptions C16_wire_hypotheses_satisfiable.
 
 (* the hypotheses are satisfiable and the statements non-vacuous: a toy wire (one byte per field) *)
 Example C16_example :
